@@ -9,10 +9,18 @@
      = the reference printer's tokens in the decompiler's layout
 
   `FragScript s` (lean/Drx/Link.lean, decidable): plain scripts (no factory), `property` / `global` declarations at script level,
-  any number of `on` handlers with any number of parameters, bodies = any number of `set <local|parameter|global|property> = e`,
-  `e` built from integer literals 0 … 2^31-1 (all four encodings), variables of the four kinds, unary minus / not, and the
-  binary operators except `starts` (finding F40), nested without bound; `-` is not applied directly to another `-` (the
-  repaired form of F21 prints `-(-x)`, which is a different token list than the reference printer's `- - x`).
+  any number of `on` handlers with any number of parameters; bodies = any number of
+    * `set <local|parameter|global|property> = e`
+    * command calls `f` / `f a, b, …` of handlers of the same script (opcode 56) or external commands (57), names ≠ sound / go
+    * `exit`
+  with `e` built, nested without bound, from: integer literals 0 … 2^31-1 (all four encodings: 03, 41 n, 81 hi lo, pool constant),
+  string constants (non-empty, printable ASCII without quote / backslash — the rest is property C11), symbols `#x`, variables of
+  the four kinds, unary minus / not, the binary operators except `starts` (finding F40), `field e`, function calls `f(a, …)` with
+  at least one argument (F125: a zero-argument call prints as the bare name; names ≠ sound / go; a LIST_FUNCTIONS name must not
+  have a symbol as first argument: gv_as_sym prints it without `#`), linear lists `[a, b, …]` incl. `[]`.
+  `-` is not applied directly to another `-` (the repaired form of F21 prints `-(-x)`, which is a different token list than the
+  reference printer's `- - x`).  Globals may be declared at script level or be handler-level ones (the handler's own table;
+  printed as sorted `global g` lines); properties are the script's declared ones.
 -/
 import Drx.Link
 import DrxProofs.LinkParse
@@ -47,7 +55,7 @@ theorem L1m_table : (∀ b, b < 256 → b ≠ 153 → tabOk b = true) ∧
 theorem L2_stack_lemma (e : Expr) (hf : FragE e = true) (c : Spec.Ctx) (s0 s1 : St) (code : List Instr)
     (h : lowerExpr c e s0 = .ok (code, s1)) (sF : St) (ctx : Lscr.Ctx) (hF : Ext s1 sF) (hrel : Rel c sF ctx)
     (G : List Spec.Name) (hG : ∀ g ∈ e.vars .glob, g ∈ G) (a : Nat) (st : Lscr.PState) (hb : st.bpc = 6) (hgv : GvOk G st.gvars) :
-    ∃ n gv', Emb e n ∧ GvOk G gv' ∧ runIs ctx a code st = .ok { st with stack := n :: st.stack, gvars := gv' } :=
+    ∃ n gv', EmbH c.handlers e n ∧ GvNext G st.gvars gv' ∧ runIs ctx a code st = .ok { st with stack := n :: st.stack, gvars := gv' } :=
   (stack_lemma e hf c s0 s1 code h).2.2 sF ctx hF hrel G hG a st hb hgv
 
 /-- **L5 ∘ L1m ∘ L2 ∘ L3 ∘ L4**: bytes → tree -/
@@ -58,7 +66,7 @@ theorem L5_parse (o : Options) (s : Script) (c : Compiled) (hf : FragScript s = 
 /-- **L6m**: tree → text -/
 theorem L6m_text (s : Script) (t : Lscr.Script) (hf : FragScript s = true) (hr : ScriptRel s t) : Lscr.lingoText t = .ok (mText s) := by
   obtain ⟨_, _, _, hH⟩ := fragScript_spec s hf
-  exact lingoText_rel s t hr (fun h hh => ⟨(hH h hh).1, (hH h hh).2.2⟩)
+  exact lingoText_rel s t hr (fun h hh => ⟨(hH h hh).1, (hH h hh).2.2.1⟩)
 
 /-- **T-link**: on the fragment, the model decompiles what the scheme compiles to the text `mText s`, and that text lexes to
     the reference printer's tokens in the decompiler's layout -/
@@ -97,7 +105,13 @@ def exScript : Script :=
                   .set (.var .prop "score".toList) (.un .not (.bin .le (.var .loc "x".toList) (.int 300))),
                   .set (.var .glob "gTotal".toList) (.bin .within (.int 1) (.bin .add (.var .loc "x".toList) (.int 2))) ] },
       { name := "finish".toList, params := [], isMethod := false,
-        body := [ .set (.var .loc "y".toList) (.bin .concat (.var .prop "score".toList) (.bin .mod (.int 0) (.int 129))) ] } ] }
+        body := [ .set (.var .loc "y".toList) (.bin .concat (.var .prop "score".toList) (.bin .mod (.int 0) (.int 129))),
+                  .set (.var .loc "z".toList) (.call "max".toList [.field (.int 3), .list [.int 1, .var .loc "y".toList, .list []]]),
+                  .call "startUp".toList [.var .loc "z".toList, .call "startUp".toList [.int 1, .int 2]],
+                  .call "alert".toList [.str "Hi there!".toList, .sym "warn".toList, .bin .concats (.str "a".toList) (.var .loc "z".toList)],
+                  .set (.var .glob "zLast".toList) (.bin .add (.var .glob "counter".toList) (.var .glob "gTotal".toList)),
+                  .call "beep".toList [],
+                  .exit ] } ] }
 
 example : FragScript exScript = true := by decide +kernel
 
@@ -111,9 +125,9 @@ example : ∃ c, compile {} exScript = .ok c ∧ NamesOk c := by
   | error e => rw [hc] at h; cases h
   | ok c => rw [hc] at h; exact ⟨c, rfl, by simpa [NamesOk] using h⟩
 
-/-- the text the theorem predicts for the example -/
+/-- the text the theorem predicts for the example (also the output of the real decompiler on the compiled chunks) -/
 example : String.ofList (mText exScript) =
-    "property score\nglobal gTotal\n\non startUp a, b\n    set x = ((a - (gTotal - 1)) * -(b + 70000))\n    set score = not (x <= 300)\n    set gTotal = sprite 1 within (x + 2)\nend\n\non finish\n    set y = (score & (0 mod 129))\nend\n" := by
+    "property score\nglobal gTotal\n\non startUp a, b\n    set x = ((a - (gTotal - 1)) * -(b + 70000))\n    set score = not (x <= 300)\n    set gTotal = sprite 1 within (x + 2)\nend\n\non finish\n    global counter\n    global zLast\n\n    set y = (score & (0 mod 129))\n    set z = max(field 3, [1, y, []])\n    startUp z, startUp(1, 2)\n    alert \"Hi there!\", #warn, (\"a\" && z)\n    set zLast = (counter + gTotal)\n    beep\n    exit\nend\n" := by
   decide +kernel
 
 end DrxProps.C02Link
